@@ -217,9 +217,15 @@ def run_module(chk, w2c2, k, consts, builds, seg_offsets):
         # the same translation with the translator started under a locale whose decimal point is ',': the spelling of constants
         # must not depend on the environment of the translator process
         kbuilds.append(('gcc-O0+translator-in-comma-locale', 'gcc', ['-O0']))
+    # the same module written as many implementation files by 16 writer threads at once (constants of different files are formatted
+    # concurrently): the text of a constant must not depend on what another thread is formatting
+    kbuilds.append(('gcc-O0+split-files-16-writers', 'gcc', ['-O0']))
+    if not chk.tier == 'quick':
+        kbuilds.append(('gcc-O0+split-files-16-writers-again', 'gcc', ['-O0']))
     for tag, cc, cflags in kbuilds:
         bd = os.path.join(d, tag.replace('+', '_'))
-        st, out, r = e2e.build_and_run(w2c2, b, plan, script, bd, cc=cc, cflags=cflags, translate_env=cenv if 'comma-locale' in tag else None)
+        topts = ['-f', str(max(1, len(probes) // 24)), '-t', '16'] if 'split-files' in tag else []
+        st, out, r = e2e.build_and_run(w2c2, b, plan, script, bd, cc=cc, cflags=cflags, translate_env=cenv if 'comma-locale' in tag else None, opts=topts)
         if st != 'ok':
             chk.violation('C07:%s:%s' % (st, tag), 'constants module %d failed at stage %s (%s): %s' % (k, st, tag, str(out)[:1500]), files)
             continue
